@@ -1,5 +1,125 @@
 import ZoektModel.Basic.Proto
+import ZoektModel.C16.Spec
 namespace ZoektModel.C16
-/-- stub: no model driver for C16 yet -/
-def main : IO Unit := ZoektModel.Proto.runLines (fun _ => ZoektModel.Proto.badCase "no model driver for C16")
+open ZoektModel ZoektModel.Proto
+
+/-! line protocol (see harness/cmd/c16/main.go)
+
+  merge   <shard>#<shard>…          answer / implementation:  ok <shard> | err
+  explode <shard>                   answer / implementation:  ok <shard>#… | ok - | err
+
+  shard := <repos>~<docs>~<langs>
+  repos := name:tomb:prio:branches:subpaths:rest ; …      (`_` = none; lists are `,`-joined, `_` = empty list)
+  docs  := repo:name:content:mask:sub:lang:cat:secs:syms[:redetect] ; …
+  secs  := a-b,…      syms := kind.parent.parentKind | nil , …
+All strings are hex (`-` = empty string) and stay hex inside the model.
+-/
+
+/-- hex strings: the empty string is spelled `-` on the wire and is "" inside the model -/
+def unS (s : String) : String := if s == "-" then "" else s
+def toS (s : String) : String := if s.isEmpty then "-" else s
+
+def listOf (sep : String) (s : String) : List String := if s == "_" then [] else s.splitOn sep
+def showL (sep : String) (l : List String) : String := if l.isEmpty then "_" else sep.intercalate l
+def listS (s : String) : List String := (listOf "," s).map unS
+def showS (l : List String) : String := showL "," (l.map toS)
+
+def parseRepo (s : String) : Option RepoMeta :=
+  match s.splitOn ":" with
+  | [n, t, p, bs, sp, rest] => do
+    pure { name := unS n, tomb := ← bool? t, prio := ← p.toInt?, branches := listS bs, subPaths := listS sp, rest := rest }
+  | _ => none
+
+def showRepo (r : RepoMeta) : String :=
+  s!"{toS r.name}:{showBool r.tomb}:{r.prio}:{showS r.branches}:{showS r.subPaths}:{r.rest}"
+
+def parseSec (s : String) : Option Sec :=
+  match s.splitOn "-" with
+  | [a, b] => do pure ⟨← a.toNat?, ← b.toNat?⟩
+  | _ => none
+
+def parseSym (s : String) : Option (Option Sym) :=
+  if s == "nil" then some none else
+  match s.splitOn "." with
+  | [k, p, pk] => some (some ⟨unS k, unS p, unS pk⟩)
+  | _ => none
+
+def showSym : Option Sym → String
+  | none => "nil"
+  | some s => s!"{toS s.kind}.{toS s.parent}.{toS s.parentKind}"
+
+def parseDoc (s : String) : Option Doc :=
+  match s.splitOn ":" with
+  | repo :: n :: c :: mask :: sub :: lang :: cat :: secs :: syms :: tl => do
+    let rd ← match tl with
+      | [] => some ""
+      | [x] => some (unS x)
+      | _ => none
+    pure { repo := ← repo.toNat?, name := unS n, content := unS c, mask := ← mask.toNat?, sub := ← sub.toNat?,
+           lang := ← lang.toNat?, cat := ← cat.toNat?, secs := ← (listOf "," secs).mapM parseSec,
+           syms := ← (listOf "," syms).mapM parseSym, redetect := rd }
+  | _ => none
+
+def showDoc (d : Doc) : String :=
+  let secs := showL "," (d.secs.map fun s => s!"{s.start}-{s.stop}")
+  let syms := showL "," (d.syms.map showSym)
+  s!"{d.repo}:{toS d.name}:{toS d.content}:{d.mask}:{d.sub}:{d.lang}:{d.cat}:{secs}:{syms}"
+
+def parseShard (s : String) : Option Shard :=
+  match s.splitOn "~" with
+  | [rs, ds, ls] => do
+    pure { repos := ← (listOf ";" rs).mapM parseRepo, docs := ← (listOf ";" ds).mapM parseDoc, langs := listS ls }
+  | _ => none
+
+def showShard (sh : Shard) : String :=
+  showL ";" (sh.repos.map showRepo) ++ "~" ++ showL ";" (sh.docs.map showDoc) ++ "~" ++ showS sh.langs
+
+def parseShards (s : String) : Option (List Shard) :=
+  if s == "-" then some [] else (s.splitOn "#").mapM parseShard
+
+def showShards (l : List Shard) : String := if l.isEmpty then "-" else "#".intercalate (l.map showShard)
+
+def handle (line : String) : String :=
+  let (inp, impl) := splitCase line
+  match fields inp with
+  | ["merge", ss] =>
+    match parseShards ss with
+    | none => badCase "shards"
+    | some shards =>
+      let model := match merge shards with
+        | none => "err"
+        | some out => "ok " ++ showShard out
+      -- inputs outside the theorems' hypotheses are only acceptable when model and implementation reject them
+      if !shards.all wfB && !(model == "err" && impl == "err") then badCase "input outside the theorems' hypotheses (wfB)" else
+      match fields impl with
+      | ["err"] => answer model
+      | ["ok", o] =>
+        match parseShard o with
+        | none => badCase "impl shard"
+        | some out =>
+          match checkMerge shards out with
+          | none => answer model
+          | some key => specFail model ("merge-" ++ key)
+      | _ => badCase "impl"
+  | ["explode", s] =>
+    match parseShard s with
+    | none => badCase "shard"
+    | some sh =>
+      let model := match explode sh with
+        | none => "err"
+        | some outs => "ok " ++ showShards outs
+      if !wfB sh && !(model == "err" && impl == "err") then badCase "input outside the theorems' hypotheses (wfB)" else
+      match fields impl with
+      | ["err"] => answer model
+      | ["ok", o] =>
+        match parseShards o with
+        | none => badCase "impl shards"
+        | some outs =>
+          match checkExplode sh outs with
+          | none => answer model
+          | some key => specFail model ("explode-" ++ key)
+      | _ => badCase "impl"
+  | _ => badCase "op"
+
+def main : IO Unit := runLines handle
 end ZoektModel.C16
